@@ -263,71 +263,73 @@ the proved precondition that keeps it in range:
   * `util.MakeASCIISet|chars[i]` — range over len(chars)
 -/
 def auditedSites : List Bytes := [
-  Spec.b "cors.newConfig|icfg.acma[0]",
-  Spec.b "headers.First|v[0]",
-  Spec.b "headers.First|v[:1]",
-  Spec.b "headers.cutAtComma|str[:end]",
-  Spec.b "headers.cutAtComma|str[:i]",
-  Spec.b "headers.cutAtComma|str[i+1:]",
-  Spec.b "headers.trimLeftOWS|s[0]",
-  Spec.b "headers.trimLeftOWS|s[1:]",
-  Spec.b "headers.trimRightOWS|s[:len(s)-1]",
-  Spec.b "headers.trimRightOWS|s[len(s)-1]",
-  Spec.b "origins.Contains|n.children[i]",
-  Spec.b "origins.Insert|n.children[i]",
-  Spec.b "origins.Insert|s[0]",
-  Spec.b "origins.Insert|s[1:]",
-  Spec.b "origins.add|n.ports[i]",
-  Spec.b "origins.add|n.ports[i]",
-  Spec.b "origins.contains|n.ports[i]",
-  Spec.b "origins.deleteSameSign|s[:i]",
-  Spec.b "origins.deleteSameSign|s[i:]",
-  Spec.b "origins.elems|n.children[i]",
-  Spec.b "origins.elems|n.schemes[i]",
-  Spec.b "origins.fastParseHost|str[0]",
-  Spec.b "origins.fastParseHost|str[0]",
-  Spec.b "origins.fastParseHost|str[1:end]",
-  Spec.b "origins.fastParseHost|str[:i]",
-  Spec.b "origins.fastParseHost|str[end+1:]",
-  Spec.b "origins.fastParseHost|str[i:]",
-  Spec.b "origins.fastParseHost|str[i]",
-  Spec.b "origins.fastParseHost|str[i]",
-  Spec.b "origins.fastParseHost|str[i]",
-  Spec.b "origins.hostOnly|hp.Value[len(subdomainWildcard)+1:]",
-  Spec.b "origins.insert|s[i+1:]",
-  Spec.b "origins.insert|s[i:]",
-  Spec.b "origins.insert|s[i]",
-  Spec.b "origins.lastByte|str[len(str)-1]",
-  Spec.b "origins.parseHostPattern|pattern.Value[:end]",
-  Spec.b "origins.parsePort|str[0]",
-  Spec.b "origins.parsePort|str[0]",
-  Spec.b "origins.parsePort|str[i:]",
-  Spec.b "origins.parsePort|str[i:end]",
-  Spec.b "origins.parsePort|str[i]",
-  Spec.b "origins.parsePort|str[i]",
-  Spec.b "origins.parseScheme|str[0]",
-  Spec.b "origins.parseScheme|str[:i]",
-  Spec.b "origins.parseScheme|str[i:]",
-  Spec.b "origins.parseScheme|str[i]",
-  Spec.b "origins.splitAtCommonSuffix|a[:len(a)-len(s)+i]",
-  Spec.b "origins.splitAtCommonSuffix|b[:len(b)-len(s)+i]",
-  Spec.b "origins.splitAtCommonSuffix|l[:len(s)]",
-  Spec.b "origins.splitAtCommonSuffix|l[i]",
-  Spec.b "origins.splitAtCommonSuffix|l[len(l)-len(s):]",
-  Spec.b "origins.splitAtCommonSuffix|s[i:]",
-  Spec.b "origins.splitAtCommonSuffix|s[i]",
-  Spec.b "origins.upsertEdge|n.children[i]",
-  Spec.b "origins.upsertEdge|n.children[i]",
-  Spec.b "origins.upsertEdge|n.children[i]",
-  Spec.b "util.Contains|as[c/32]",
-  Spec.b "util.IndexAfter|set.elems[start:]",
-  Spec.b "util.MakeASCIISet|as[c/32]",
-  Spec.b "util.MakeASCIISet|chars[i]"
+  Spec.b "cors.newConfig|icfg.acma[0]|!(icfg == nil) ; len(icfg.acma) > 0",
+  Spec.b "headers.First|v[0]|!(!found || len(v) == 0)",
+  Spec.b "headers.First|v[:1]|!(!found || len(v) == 0)",
+  Spec.b "headers.cutAtComma|str[:end]|",
+  Spec.b "headers.cutAtComma|str[:i]|i >= 0",
+  Spec.b "headers.cutAtComma|str[i+1:]|i >= 0",
+  Spec.b "headers.trimLeftOWS|s[0]|for len(s) > 0 ; !(i > n)",
+  Spec.b "headers.trimLeftOWS|s[1:]|for len(s) > 0 ; !(i > n) ; !(!isOWS(s[0]))",
+  Spec.b "headers.trimRightOWS|s[:len(s)-1]|for len(s) > 0 ; !(i > n) ; !(!isOWS(s[len(s)-1]))",
+  Spec.b "headers.trimRightOWS|s[len(s)-1]|for len(s) > 0 ; !(i > n)",
+  Spec.b "origins.Contains|n.children[i]|!(!ok) ; !(n.contains(o.Scheme, o.Port, true)) ; !(!found)",
+  Spec.b "origins.Insert|n.children[i]|!(!ok) ; !(n.contains(p.Scheme, p.Port, true)) ; !(!found)",
+  Spec.b "origins.Insert|s[0]|",
+  Spec.b "origins.Insert|s[1:]|s[0] == '*'",
+  Spec.b "origins.add|n.ports[i]|!(n.contains(scheme, port, wildcardSubs)) ; !(!found)",
+  Spec.b "origins.add|n.ports[i]|!(n.contains(scheme, port, wildcardSubs)) ; !(!found)",
+  Spec.b "origins.contains|n.ports[i]|!(!found)",
+  Spec.b "origins.deleteSameSign|s[:i]|!(v < 0)",
+  Spec.b "origins.deleteSameSign|s[i:]|v < 0",
+  Spec.b "origins.elems|n.children[i]|i := range n.children",
+  Spec.b "origins.elems|n.schemes[i]|i := range n.ports",
+  Spec.b "origins.fastParseHost|str[0]|!(len(str) >= minIPv6HostLen && str[0] == '[') ; !(len(str) == 0)",
+  Spec.b "origins.fastParseHost|str[0]|len(str) >= minIPv6HostLen",
+  Spec.b "origins.fastParseHost|str[1:end]|len(str) >= minIPv6HostLen && str[0] == '[' ; !(end == -1)",
+  Spec.b "origins.fastParseHost|str[:i]|!(len(str) >= minIPv6HostLen && str[0] == '[') ; !(len(str) == 0 || str[0] == labelSep)",
+  Spec.b "origins.fastParseHost|str[end+1:]|len(str) >= minIPv6HostLen && str[0] == '[' ; !(end == -1)",
+  Spec.b "origins.fastParseHost|str[i:]|!(len(str) >= minIPv6HostLen && str[0] == '[') ; !(len(str) == 0 || str[0] == labelSep)",
+  Spec.b "origins.fastParseHost|str[i]|!(len(str) >= minIPv6HostLen && str[0] == '[') ; !(len(str) == 0 || str[0] == labelSep) ; for i < len(str)",
+  Spec.b "origins.fastParseHost|str[i]|!(len(str) >= minIPv6HostLen && str[0] == '[') ; !(len(str) == 0 || str[0] == labelSep) ; for i < len(str) ; !(str[i] == labelSep)",
+  Spec.b "origins.fastParseHost|str[i]|!(len(str) >= minIPv6HostLen && str[0] == '[') ; !(len(str) == 0 || str[0] == labelSep) ; for i < len(str) ; !(str[i] == labelSep) ; !(isDigit(str[i]))",
+  Spec.b "origins.hostOnly|hp.Value[len(subdomainWildcard)+1:]|hp.Kind == PatternKindSubdomains",
+  Spec.b "origins.insert|s[i+1:]|",
+  Spec.b "origins.insert|s[i:]|",
+  Spec.b "origins.insert|s[i]|",
+  Spec.b "origins.lastByte|str[len(str)-1]|!(len(str) == 0)",
+  Spec.b "origins.parseHostPattern|pattern.Value[:end]|!(!ok)",
+  Spec.b "origins.parsePort|str[0]|!(len(str) == 0 || !isNonZeroDigit(str[0]))",
+  Spec.b "origins.parsePort|str[0]|!(len(str) == 0)",
+  Spec.b "origins.parsePort|str[i:]|!(len(str) == 0 || !isNonZeroDigit(str[0])) ; !(port < 0 || maxUint16 < port)",
+  Spec.b "origins.parsePort|str[i:end]|!(len(str) == 0 || !isNonZeroDigit(str[0]))",
+  Spec.b "origins.parsePort|str[i]|!(len(str) == 0 || !isNonZeroDigit(str[0])) ; for i < end",
+  Spec.b "origins.parsePort|str[i]|!(len(str) == 0 || !isNonZeroDigit(str[0])) ; for i < end ; !(!isDigit(str[i]))",
+  Spec.b "origins.parseScheme|str[0]|!(len(str) == 0)",
+  Spec.b "origins.parseScheme|str[:i]|!(len(str) == 0 || !isLowerAlpha(str[0]))",
+  Spec.b "origins.parseScheme|str[i:]|!(len(str) == 0 || !isLowerAlpha(str[0]))",
+  Spec.b "origins.parseScheme|str[i]|!(len(str) == 0 || !isLowerAlpha(str[0])) ; for i < end",
+  Spec.b "origins.splitAtCommonSuffix|a[:len(a)-len(s)+i]|",
+  Spec.b "origins.splitAtCommonSuffix|b[:len(b)-len(s)+i]|",
+  Spec.b "origins.splitAtCommonSuffix|l[:len(s)]|",
+  Spec.b "origins.splitAtCommonSuffix|l[i]|0 <= i",
+  Spec.b "origins.splitAtCommonSuffix|l[len(l)-len(s):]|",
+  Spec.b "origins.splitAtCommonSuffix|s[i:]|",
+  Spec.b "origins.splitAtCommonSuffix|s[i]|0 <= i",
+  Spec.b "origins.upsertEdge|n.children[i]|!(!found)",
+  Spec.b "origins.upsertEdge|n.children[i]|!(!found)",
+  Spec.b "origins.upsertEdge|n.children[i]|!found",
+  Spec.b "util.Contains|as[c/32]|",
+  Spec.b "util.IndexAfter|set.elems[start:]|!(set.maxLen < uint(len(e)))",
+  Spec.b "util.MakeASCIISet|as[c/32]|i := range len(chars)",
+  Spec.b "util.MakeASCIISet|chars[i]|i := range len(chars)"
 ]
 
-/-- **C17 (sites).** The code indexes and slices exactly at the audited sites: a new or changed
-index expression breaks this obligation. -/
-theorem C17_sites : Facts.cors_indexSites = auditedSites := by decide
+/-- **C17 (sites).** The code indexes and slices exactly at the audited sites, each under exactly the audited
+dominating conditions (`pkg.func|expression|guards`: left operands of the `&&`/`||` chains the expression is a right
+operand of, enclosing `if`/`for`/`range`/`case` conditions, negations of earlier leave-guards): a new or changed index
+expression, and a dropped, weakened or reordered guard, break this obligation. -/
+theorem C17_sites : Facts.cors_indexSites = auditedSites := by decide +kernel
 
 #print axioms C17_sites
 #print axioms C17_value_nonempty
